@@ -209,6 +209,73 @@ theorem populate_default (d : DegreeTargets ℝ) (t : NodeTargets ℝ) (g : Stri
   · intro a b c; simp only at a b c; subst a b c
     simp [populateDegree, h0, h1, h2]
 
+
+/-! ### impairment profile selection (which path loss enters the `min`) -/
+
+/-- a `per_degree_impairments` entry selects exactly the named profile (on express connections whatever its
+type, on add/drop connections when its type matches) -/
+theorem select_user_wins (ps : List (Profile ℝ)) (i : Nat) (t : PType) (p : Profile ℝ)
+    (hp : profileById ps i = some p) (ht : t = PType.express ∨ p.ptype = t) :
+    selectProfile ps (some i) t = .ok (some p) := by
+  simp only [selectProfile, hp]
+  rcases ht with h | h <;> simp [h]
+
+/-- an entry naming an unknown profile id is rejected -/
+theorem select_unknown_rejected (ps : List (Profile ℝ)) (i : Nat) (t : PType)
+    (hp : profileById ps i = none) : selectProfile ps (some i) t = .error "NetworkTopologyError" := by
+  simp [selectProfile, hp]
+
+/-- on an add or drop connection a profile of another path type is rejected -/
+theorem select_mismatch_rejected (ps : List (Profile ℝ)) (i : Nat) (t : PType) (p : Profile ℝ)
+    (hp : profileById ps i = some p) (ht : t ≠ PType.express) (hne : p.ptype ≠ t) :
+    selectProfile ps (some i) t = .error "NetworkTopologyError" := by
+  simp [selectProfile, hp, ht, hne]
+
+/-- without an entry the first library profile of the connection's path type applies -/
+theorem select_default_first (ps : List (Profile ℝ)) (t : PType) :
+    selectProfile ps none t = .ok (firstOfType ps t) := rfl
+
+theorem firstOfType_spec (ps : List (Profile ℝ)) (t : PType) (p : Profile ℝ) (h : firstOfType ps t = some p) :
+    p ∈ ps ∧ p.ptype = t := by
+  unfold firstOfType at h
+  exact ⟨List.mem_of_find?_eq_some h, by simpa using List.find?_some h⟩
+
+/-- no profile at all for this path type: the loss is the default 0 for every carrier -/
+theorem maxloss_default_zero (f : ℝ) : maxlossOf (none : Option (Profile ℝ)) f = some 0 := by
+  simp [maxlossOf]
+
+/-- the value found for a carrier is the value of a band of the profile that contains the carrier -/
+theorem lookupBands_sound (bs : List (Band ℝ)) (f v : ℝ) (h : lookupBands bs f = some v) :
+    ∃ b ∈ bs, b.value = some v ∧ (b.lo = none ∨ ∃ lo, b.lo = some lo ∧ lo ≤ f ∧ f ≤ b.hi) := by
+  induction bs with
+  | nil => simp [lookupBands] at h
+  | cons b bs ih =>
+    unfold lookupBands at h
+    cases hlo : b.lo with
+    | none =>
+      simp only [hlo] at h
+      cases hv : b.value with
+      | none => simp only [hv] at h; obtain ⟨b', hb', r⟩ := ih (by simpa using h); exact ⟨b', List.mem_cons_of_mem _ hb', r⟩
+      | some w =>
+        simp only [hv] at h
+        have : w = v := by simpa using h
+        exact ⟨b, List.mem_cons_self, by rw [hv, this], Or.inl hlo⟩
+    | some lo =>
+      simp only [hlo] at h
+      by_cases hin : lo ≤ f ∧ f ≤ b.hi
+      · have hd : (decide (lo ≤ f) && decide (f ≤ b.hi)) = true := by simp [hin.1, hin.2]
+        rw [hd] at h
+        cases hv : b.value with
+        | none => simp only [hv] at h; obtain ⟨b', hb', r⟩ := ih (by simpa using h); exact ⟨b', List.mem_cons_of_mem _ hb', r⟩
+        | some w =>
+          simp only [hv] at h
+          have : w = v := by simpa using h
+          exact ⟨b, List.mem_cons_self, by rw [hv, this], Or.inr ⟨lo, hlo, hin.1, hin.2⟩⟩
+      · have hd : (decide (lo ≤ f) && decide (f ≤ b.hi)) = false := by
+          rcases not_and_or.1 hin with h1 | h1 <;> simp [h1]
+        rw [hd] at h
+        obtain ⟨b', hb', r⟩ := ih (by simpa using h); exact ⟨b', List.mem_cons_of_mem _ hb', r⟩
+
 /-! ### non-vacuity -/
 example : chanOutDbm (-15 : ℝ) 0 (-20) 1 = -19 := by
   rw [chanOutDbm_eq_min]; norm_num
